@@ -19,7 +19,7 @@ KINDS = [
     ('panic-macro', re.compile(r'\b(panic|unreachable|todo|unimplemented|assert|assert_eq|assert_ne)!\s*\(')),
     ('index', re.compile(r'[A-Za-z_\)\]]\[[^\]\n]*\]')),           # a[i], a[i..j], f()[k]
     ('narrowing-cast', re.compile(r'\bas\s+(u8|u16|u32|i8|i16|i32|usize|isize|char)\b')),
-    ('shift', re.compile(r'(<<|>>)\s*[A-Za-z_(]')),
+    ('shift', re.compile(r'\s(<<|>>)=?\s')),            # rustfmt puts spaces around shift operators; `Vec<Vec<u8>>(` is not one
     ('int-pow', re.compile(r'\.pow\(')),
     ('usize-sub', re.compile(r'\b(len\(\)|index|cursor|size|start|end|count|i|j|n)\s*-\s*(1|[A-Za-z_])')),
 ]
@@ -76,16 +76,34 @@ def key(s):
 
 
 def compare(repo, baseline_path):
+    """current sites, and the sites that are an undischarged obligation: a site counts as reviewed if the same site is in
+    the baseline, or if — within the same file and of the same kind — at least as many baseline sites have disappeared as
+    unmatched sites have appeared (code moved into a helper, a variable renamed, a function split: the construct is the
+    reviewed one in a new place). Only a net increase of a kind of construct in a file is new."""
     cur = sites_of(repo)
     base = json.load(open(baseline_path)) if os.path.exists(baseline_path) else {'sites': []}
     bk = {}
     for s in base['sites']:
         bk[key(s)] = bk.get(key(s), 0) + 1
-    new = []
+    unmatched = []
     for s in cur:
         k = key(s)
         if bk.get(k, 0) > 0:
             bk[k] -= 1
+        else:
+            unmatched.append(s)
+    vanished = {}
+    for s in base['sites']:
+        k = key(s)
+        if bk.get(k, 0) > 0:
+            bk[k] -= 1
+            g = (s['file'], s['kind'])
+            vanished[g] = vanished.get(g, 0) + 1
+    new = []
+    for s in unmatched:
+        g = (s['file'], s['kind'])
+        if vanished.get(g, 0) > 0:
+            vanished[g] -= 1        # a reviewed construct of this kind left this file: this one takes its place
         else:
             new.append(s)
     return cur, new
